@@ -80,6 +80,23 @@ def gen(rng, tier):
             else:
                 cs.append(Case("verify_ph %s %s %s" % (hx(pkm), hx(sig), hx(msg)), cls="verify_ph/torsion-forgery", expect="err",
                                meta={"why": "a pre-hashed signature whose R has small order was accepted"}))
+    # a small-order public key in ANY of its encodings (canonical, non-canonical y ≥ p, "negative zero" sign bit) must be
+    # refused even when the signature satisfies the group equation for it (e.g. A = identity: (R, S) = ([s]B, s) for every message)
+    enc = []
+    for p0 in refs.ED_SMALL_ORDER:
+        for hb in (0, 0x80):
+            q = bytearray(p0); q[31] |= hb
+            enc.append(bytes(q))
+    for pkb in dict.fromkeys(enc):
+        for pure in (True, False):
+            f = refs.smallorder_pk_forgery(rng, pkb, pure=pure)
+            if f:
+                msg, sig = f
+                if pure:
+                    cs.append(Case("verify %s %s %s" % (hx(pkb), hx(msg), hx(sig)), cls="verify/smallorder-pk-forgery", expect="err",
+                                   meta={"why": "a signature under a small-order public key (encoding %s) was accepted" % pkb.hex()}))
+                else:
+                    cs.append(Case("verify_ph %s %s %s" % (hx(pkb), hx(sig), hx(msg)), cls="verify_ph/smallorder-pk-forgery", expect="err"))
     # RFC 8032 vectors
     seed = bytes.fromhex("9d61b19deffd5a60ba844af492ec2cc44449c5697b326919703bac031cae7f60")
     pk = refs.ed_public(seed)
